@@ -452,13 +452,23 @@ Definition check_generics (t : ity) : ity :=
 Definition iscallable (t : ity) : bool :=
   is_routine t || ity_eqb t (ITyping ta_Callable) || safe_issubclass t [c_abcCallable].
 
+(* inspection._resolve_wrappers: NewType supertypes and alias values, however nested *)
+Fixpoint resolve_wrappers (t : ity) : ity :=
+  match t with
+  | INewType _ s => resolve_wrappers s
+  | IAlias _ v => resolve_wrappers v
+  | IAliasStr _ s => IValue (LStr s)
+  | _ => t
+  end.
+
 Definition origin (t : ity) : ity :=
   let a0 := resolve_supertype t in
   let a1 := if isclassvartype a0 then match args a0 with x :: _ => x | [] => a0 end else a0 in
-  let a2 := match a1 with IAlias _ v => v | IAliasStr _ s => IValue (LStr s) | _ => a1 end in
+  let a2 := resolve_wrappers a1 in
   let a3 := match get_origin a2 with Some o => o | None => a2 end in
   let a4 := if isbuiltintype a3 then a3 else check_generics a3 in
-  if iscallable a4 then ITyping ta_Callable else a4.
+  (* a class whose instances can be called is still that class *)
+  if iscallable a4 && negb (is_class a4) then ITyping ta_Callable else a4.
 
 Definition isgeneric (t : ity) : bool :=
   let s := show t in
@@ -481,26 +491,22 @@ Definition issubscriptedgeneric (t : ity) : bool :=
 
 Definition is_nullarg (a : ity) : bool :=
   match a with IClass c => N.eqb c c_NoneType | INone | IValue LNone => true | _ => false end.
+Definition isunionorigin (o : ity) : bool :=
+  match o with ISpecial SUnion => true | IClass c => N.eqb c c_UnionType | _ => false end.
 Definition isoptionaltype (t : ity) : bool :=
   let a := match dunder_args t with Some l => l | None => [] end in
-  let tname := name (origin t) in
-  String.eqb tname "Optional"
-  || (existsb is_nullarg a
-      && (String.eqb tname "Union" || String.eqb tname "UnionType" || String.eqb tname "Literal")).
-Definition isuniontype (t : ity) : bool :=
-  let n := name (origin t) in String.eqb n "Union" || String.eqb n "UnionType".
+  let og := origin t in
+  ity_eqb og (ISpecial SOptional)
+  || (existsb is_nullarg a && (isunionorigin og || ity_eqb og (ISpecial SLiteral))).
+Definition isuniontype (t : ity) : bool := isunionorigin (origin t).
 Definition isfinal (t : ity) : bool := ity_eqb (origin t) (ISpecial SFinal).
 Definition isliteral (t : ity) : bool :=
   ity_eqb (origin t) (ISpecial SLiteral)
   || match t with IForwardRef a _ => prefixb "Literal" a | _ => false end.
 
-(* inspection._resolve_wrappers: NewType supertypes, then one alias value (the raw family) *)
-Definition resolve_wrappers (t : ity) : ity :=
-  match resolve_supertype t with
-  | IAlias _ v => v
-  | IAliasStr _ s => IValue (LStr s)
-  | x => x
-  end.
+(* inspection._resolve_class: wrappers resolved, then the typing origin (the raw family) *)
+Definition resolve_class (t : ity) : ity :=
+  let r := resolve_wrappers t in match get_origin r with Some o => o | None => r end.
 
 (* the origin()+issubclass family *)
 Definition via_origin (bases : list cls) (t : ity) : res bool := issubclass_raw (origin t) bases.
@@ -565,16 +571,17 @@ Definition last_is_ellipsis (l : list ity) : bool :=
   match rev l with IEllipsis :: _ => true | _ => false end.
 Definition isfixedtupletype (t : ity) : bool :=
   let a := args t in
-  match a with
-  | [] => false
-  | _ => if last_is_ellipsis a then false
-         else match get_origin t with Some o => safe_issubclass o [c_tuple] | None => false end
-  end.
+  let has_dunder := match dunder_args t with Some _ => true | None => false end in
+  let is_empty := match a with [] => true | _ => false end in
+  if (is_empty && negb has_dunder) || (negb is_empty && last_is_ellipsis a) then false
+  else match get_origin t with Some o => safe_issubclass o [c_tuple] | None => false end.
 Definition isstructuredtype (t : ity) : bool :=
   isfixedtupletype t || isnamedtuple t || istypeddict t
   || (negb (isstdlibsubtype (origin t)) && negb (isuniontype t) && negb (isliteral t)).
 
-Definition isunresolvable (t : ity) : bool := mem_ity t (t_unresolvable T).
+Definition isunresolvable (t : ity) : bool :=
+  mem_ity t (t_unresolvable T)
+  || mem_ity (match get_origin t with Some o => o | None => INone end) (t_unresolvable T).
 Definition isnonetype (t : ity) : bool :=
   match t with INone => true | IClass c => N.eqb c c_NoneType | _ => false end.
 Definition isforwardref (t : ity) : bool := match t with IForwardRef _ _ => true | _ => false end.
@@ -652,7 +659,7 @@ Definition run_pred (p : pred) (t : ity) : res bool :=
   match origin_family_bases p, origin_family_tp p, raw_family_bases p with
   | Some bs, _, _ => via_origin bs t
   | _, Some b, _ => via_origin_tp b t
-  | _, _, Some bs => Ok (safe_issubclass (resolve_wrappers t) bs)
+  | _, _, Some bs => Ok (safe_issubclass (resolve_class t) bs)
   | None, None, None =>
     match p with
     | P_isbuiltintype => Ok (isbuiltintype t) | P_isstdlibtype => Ok (isstdlibtype t)
